@@ -274,7 +274,7 @@ class Gen:
 MUTS = ["pure", "view", "nonpayable", "payable"]
 
 
-def gen_contract(rnd, decimals=True):
+def gen_contract(rnd, decimals=True, with_lib=True):
     """Returns dict(src=..., funcs=[...], pubvars=[...], events, errors, ctor) -- the generator's knowledge."""
     g = Gen(rnd, decimals)
     pubvars = []
@@ -374,7 +374,7 @@ def gen_contract(rnd, decimals=True):
                       "event": None, "kind": "setter", "var": pv["name"], "nkeys": len(keys)})
     # optionally: a library module whose external functions / public variable are re-exported (`exports:`)
     lib = None
-    if rnd.random() < 0.5:
+    if rnd.random() < 0.5 and with_lib:
         lfuncs = []
         for i in range(rnd.randint(1, 2)):
             mut = rnd.choice(["pure", "view", "nonpayable", "payable"])
